@@ -5,7 +5,7 @@
    Program points follow the C code (src/queue.c, src/inline_internal.h), one per atomic access of the lane:
      dispatch_sync          _dispatch_sync_f_inline: _dispatch_queue_try_reserve_sync_width (tail test, rmw loop),
                             callout, _dispatch_lane_non_barrier_complete (rmw loop, _finish: barrier_complete / push)
-     dispatch_barrier_sync  _dispatch_barrier_sync_f_inline: _dispatch_queue_try_acquire_barrier_sync, callout,
+     dispatch_barrier_sync  _dispatch_barrier_sync_f_inline: _dispatch_queue_try_acquire_barrier_sync (tail test, rmw loop), callout,
                             _dispatch_lane_barrier_sync_invoke_and_complete -> (dq_width > 1) _dispatch_lane_barrier_complete
      slow path of both      _dispatch_sync_f_slow -> __DISPATCH_WAIT_FOR_QUEUE__ -> _dispatch_lane_push_waiter (MPSC push,
                             rmw loop that may take the lock and run _dispatch_lane_barrier_complete), thread-event wait,
@@ -69,7 +69,8 @@ Inductive pc :=
 | NBC                            (* _dispatch_lane_non_barrier_complete: rmw loop *)
 | X_rootpush (k : ret)           (* this thread set ENQUEUED: dx_push(dq->do_targetq, dq) *)
 (* barrier sync fast path *)
-| B_acq
+| B_tail                         (* _dispatch_queue_try_acquire_barrier_sync: if (dq->dq_items_tail) return false *)
+| B_acq                          (* ... the rmw loop of _dispatch_queue_try_acquire_barrier_sync_and_suspend *)
 | B_call (i : Z)
 | B_incall (i : Z)
 (* _dispatch_lane_barrier_complete and what it calls *)
@@ -211,7 +212,7 @@ Definition begin (s : gst) (t : Z) (c : call) : option gst :=
   | Idle =>
       match c with
       | CSync => Some (set_pc s t S_tail)
-      | CBarrierSync => Some (set_pc s t B_acq)
+      | CBarrierSync => Some (set_pc s t B_tail)
       | CAsync b q ovr => if (0 <=? q) && (q <? 8) then Some (set_pc s t (A_tail b q ovr)) else None
       | CWorkerLane floor =>
           if 0 <? rootq s then Some (set_pc (set_tokh (set_rootq s (rootq s - 1)) (Some t)) t (W_lock floor)) else None
@@ -260,6 +261,7 @@ Definition gstep (s : gst) (t : Z) : option gst :=
       end
   | X_rootpush k => Some (set_pc (set_tokh (set_rootq s (rootq s + 1)) None) t (after k))
   (* ---------------- dispatch_barrier_sync, fast path *)
+  | B_tail => Some (set_pc s t (if is_nil (lst s) then B_acq else SW_xchg true))
   | B_acq =>
       match f_dispatch_queue_try_acquire_barrier_sync_and_suspend 0 t 0 W (st s) with
       | Commit new _ =>
